@@ -1,5 +1,6 @@
 import Driver.Util
 -- one import per component (keep sorted; one line each so that merges stay trivial)
+import Driver.Ops.Attempt
 import Driver.Ops.Data
 import Driver.Ops.Envelope
 import Driver.Ops.Policy
@@ -12,6 +13,7 @@ def dispatch (line : String) : String :=
   match words line with
   | ["ping"] => "pong"
   -- one line per component
+  | "attempt" :: rest => attemptOp rest
   | "data" :: rest => dataOp rest
   | "envelope" :: rest => envelopeOp rest
   | "policy" :: rest => policyOp rest
